@@ -26,6 +26,7 @@ from automata.fa.dfa import DFA
 
 from harness import gen
 from harness import dfa_query_lib as L
+from harness.common import guarded as case_guard
 from harness.common import Ctx, Toks, call, enc_dfa, toks
 
 LEVEL = "proof"
@@ -168,6 +169,7 @@ def describe(d: DFA, p: dict) -> dict:
     return dict(automaton=repr(d), params=p)
 
 
+@case_guard
 def check_case(ctx: Ctx, d: DFA, enc: str, sy, shape: dict, p: dict, origin: str):
     if not in_domain(d, p, shape):
         return stat_only(ctx, d, enc, sy, shape, p)
